@@ -33,7 +33,10 @@ def run(ck, build):
     try:
         kdflib.check_pbkdf2(ob, mod, "H/N0")
     except Broken as e:
+        keep = [v for v in ck.violations if v["construct"].startswith("count-narrowed")]
         ck.rollback(snap)
+        for v in keep:      # (complete in itself: a truncation of the count with no bound anywhere in the function, whatever the loops look like)
+            ck.bad(v["rule"], v["function"], v["construct"], v.get("fact"), where=v.get("where"))
         if not ck.violations:
             raise
         # the small-length rule has refuted concrete cases; that the per-class rule does not follow this code's shape does not take them back
